@@ -168,18 +168,58 @@ fn bits_eq(a: &[f64], b: &[f64]) -> bool {
     a.len() == b.len() && a.iter().zip(b).all(|(x, y)| x.to_bits() == y.to_bits())
 }
 
+/// what the optional `borsh` feature of the crate adds (the harness is built with it - dev and release shards - and
+/// WITHOUT it: C18 quantifies over both configurations)
+#[cfg(feature = "borsh")]
+pub trait MaybeBorsh: borsh::BorshSerialize + borsh::BorshDeserialize {}
+#[cfg(feature = "borsh")]
+impl<T: borsh::BorshSerialize + borsh::BorshDeserialize> MaybeBorsh for T {}
+#[cfg(not(feature = "borsh"))]
+pub trait MaybeBorsh {}
+#[cfg(not(feature = "borsh"))]
+impl<T> MaybeBorsh for T {}
+
+#[cfg(feature = "borsh")]
+fn borsh_part<V: MaybeBorsh>(v: &V, flat: &dyn Fn(&V) -> Vec<f64>, orig: &[f64]) -> (String, char) {
+    let b = borsh::to_vec(v);
+    let hex = match &b {
+        Ok(bytes) => bytes.iter().map(|x| format!("{x:02x}")).collect::<String>(),
+        Err(_) => "ERR".to_string(),
+    };
+    let rt = match b.as_ref().ok().and_then(|s| borsh::from_slice::<V>(s).ok()) {
+        Some(back) if bits_eq(&flat(&back), orig) => '1',
+        _ => '0',
+    };
+    // the same bytes through a STREAMING reader that delivers at most 3 bytes per `read` call (socket / pipe / BufReader
+    // boundary): short reads are legal for `Read::read`, a deserializer must not take one for end of input
+    struct Dribble<'a>(&'a [u8]);
+    impl<'a> borsh::io::Read for Dribble<'a> {
+        fn read(&mut self, buf: &mut [u8]) -> borsh::io::Result<usize> {
+            let n = buf.len().min(3).min(self.0.len());
+            buf[..n].copy_from_slice(&self.0[..n]);
+            self.0 = &self.0[n..];
+            Ok(n)
+        }
+    }
+    let rt_stream = match b.as_ref().ok().and_then(|s| V::deserialize_reader(&mut Dribble(s)).ok()) {
+        Some(back) if bits_eq(&flat(&back), orig) => '1',
+        _ => '0',
+    };
+    (hex, if rt == '1' && rt_stream == '1' { '1' } else { '0' })
+}
+#[cfg(not(feature = "borsh"))]
+fn borsh_part<V: MaybeBorsh>(_v: &V, _flat: &dyn Fn(&V) -> Vec<f64>, _orig: &[f64]) -> (String, char) {
+    ("SKIP".to_string(), '-')
+}
+
 fn one<V>(v: &V, flat: &dyn Fn(&V) -> Vec<f64>) -> Vec<(String, String)>
 where
-    V: Serialize + serde::de::DeserializeOwned + borsh::BorshSerialize + borsh::BorshDeserialize,
+    V: Serialize + serde::de::DeserializeOwned + MaybeBorsh,
 {
     let tree = Serialize::serialize(v, Rec).unwrap_or_else(|e| format!("ERR:{}", e.0.replace(' ', "_")));
     let orig = flat(v);
     let finite = orig.iter().all(|x| x.is_finite());
-    let b = borsh::to_vec(v);
-    let borsh_hex = match &b {
-        Ok(bytes) => bytes.iter().map(|x| format!("{x:02x}")).collect::<String>(),
-        Err(_) => "ERR".to_string(),
-    };
+    let (borsh_hex, rt_borsh) = borsh_part(v, flat, &orig);
     let rt_json = if !finite {
         '-'
     } else {
@@ -192,14 +232,16 @@ where
         Some(back) if bits_eq(&flat(&back), &orig) => '1',
         _ => '0',
     };
-    let rt_borsh = match b.ok().and_then(|s| borsh::from_slice::<V>(&s).ok()) {
-        Some(back) if bits_eq(&flat(&back), &orig) => '1',
+    // a non-self-describing binary format (bincode-like): Deserialize impls that need `deserialize_any` fail here
+    let wire = crate::binfmt::to_wire(v);
+    let rt_bin = match crate::binfmt::from_wire::<V>(&wire) {
+        Ok(back) if bits_eq(&flat(&back), &orig) => '1',
         _ => '0',
     };
     vec![
         ("tree".into(), tree.clone()),
         ("borsh".into(), borsh_hex),
-        ("rt".into(), format!("{rt_json}{rt_cbor}{rt_borsh}")),
+        ("rt".into(), format!("{rt_json}{rt_cbor}{rt_borsh}{rt_bin}")),
         ("impl".into(), "1".into()),
     ]
 }
